@@ -4,4 +4,15 @@ go 1.18
 
 require github.com/samsarahq/thunder v0.0.0
 
+require (
+	github.com/gogo/protobuf v1.1.2-0.20180914054005-e14cafb6a2c2 // indirect
+	github.com/golang/protobuf v1.4.2 // indirect
+	golang.org/x/net v0.0.0-20211216030914-fe4d6282115f // indirect
+	golang.org/x/sys v0.0.0-20210806184541-e5e7981a1069 // indirect
+	golang.org/x/text v0.3.7 // indirect
+	google.golang.org/genproto v0.0.0-20200526211855-cb27e3aa2013 // indirect
+	google.golang.org/grpc v1.35.0 // indirect
+	google.golang.org/protobuf v1.25.0 // indirect
+)
+
 replace github.com/samsarahq/thunder => /repo
